@@ -8,27 +8,35 @@
 (* inside a loop needs a phi at the loop header as well) and in which a    *)
 (* value flows around one or two back edges before it reaches a sink.      *)
 (*   D  Sacc-in-chain  use        use = Gacc / Qacc (templates), Racc      *)
-(* Token meaning (bin/sem.py instantiate): D declaration with initialiser, *)
+(* Token meaning (bin/sem.py instantiate): D declaration with initialiser  *)
+(* (DL: a literal, so that the accumulator starts as a known constant),     *)
 (* Sacc `a = a + atom`, Gacc `o <-- in1 * a`, Qacc `o <== in1 * a`,        *)
-(* Racc `return a`.                                                        *)
+(* Racc `return a`; DA `var arr[2]`, SAv `arr[a] = atom`, Gidx / Qidx /     *)
+(* Ridx: the same uses with `arr[0] + arr[1]` in place of `a`.             *)
 (***************************************************************************)
 EXTENDS Integers, Sequences, FiniteSets, TLC, Json
 
 CONSTANTS Depth, Template
 Arms == {"if", "ifeT", "ifeE", "wh"}
-RECURSIVE Build(_)
-Build(chain) == IF chain = <<>> THEN <<"Sacc">>
+RECURSIVE Build(_, _)
+Build(chain, bottom) == IF chain = <<>> THEN bottom
                 ELSE LET h == Head(chain)
-                         inner == Build(Tail(chain)) IN
+                         inner == Build(Tail(chain), bottom) IN
                      CASE h = "if" -> <<"if">> \o inner \o <<"}">>
                        [] h = "wh" -> <<"wh">> \o inner \o <<"}">>
                        [] h = "ifeT" -> <<"ife">> \o inner \o <<"}", "}">>
                        [] h = "ifeE" -> <<"ife", "}">> \o inner \o <<"}">>
 Chains == UNION {[1..d -> Arms] : d \in 1..Depth}
 Uses == IF Template THEN {"Gacc", "Qacc"} ELSE {"Racc"}
+IdxUses == IF Template THEN {"Gidx", "Qidx"} ELSE {"Ridx"}
 VARIABLE c
-Init == c \in Chains \X Uses \X {0, 1}      \* last component: a second update after the chain (0 / 1)
+\* family "acc": accumulator; family "cursor": a write cursor -- `arr[a] = atom; a = a + 1` at the bottom of the chain (also with an
+\* empty chain), the array used afterwards: the cursor reaches a sink only through the subscript of an assignment target
+Init == \/ c \in {"acc"} \X Chains \X Uses \X {0, 1} \X {"D", "DL"}   \* a second update after the chain (0 / 1); initialiser: expression / literal
+        \/ c \in {"cursor"} \X (Chains \cup {<<>>}) \X IdxUses \X {0} \X {"DL"}
 Next == UNCHANGED c
 Spec == Init /\ [][Next]_c
-Emit == PrintT(<<"CASE", ToJson([toks |-> <<"D">> \o Build(c[1]) \o (IF c[3] = 1 THEN <<"Sacc">> ELSE <<>>) \o <<c[2], "}">>])>>)
+Toks == IF c[1] = "acc" THEN <<c[5]>> \o Build(c[2], <<"Sacc">>) \o (IF c[4] = 1 THEN <<"Sacc">> ELSE <<>>) \o <<c[3], "}">>
+        ELSE <<"DL", "DA">> \o Build(c[2], <<"SAv", "Sacc">>) \o <<c[3], "}">>
+Emit == PrintT(<<"CASE", ToJson([toks |-> Toks])>>)
 =============================================================================
